@@ -362,7 +362,7 @@ func stressors(full bool) []VerifyCase {
 		}
 	}
 	// calls and arrays with many elements
-	elems := []int{255, 256, 257}
+	elems := []int{255, 256, 257, 2049, 4096, 4097, 5000}
 	if full {
 		elems = append(elems, 65535, 65536, 65537)
 	}
